@@ -65,7 +65,7 @@ def run(ck, an, tier):
             thr_found = True
             at_s = fa.node_of(enclosing_if(s).test).id
             # abs(weight of this contract's imbalance) - self.margin, spelled with the function's own names and normalised by the same evaluator
-            thr = spec(fa, f"abs({imb_src}._to_weights(broker)[{cvar}]) - self.margin", at_s)
+            thr = specv(fa, f"abs({imb_src}._to_weights(broker)[{cvar}]) - self.margin", at_s)
             r_ok = len(rels) == 1 and rels[0][1] == "<" and len(rels[0][4].t) == 2 and rels[0][4].coeff_of_atom("self.margin") == Poly.const(-1) and any(a.startswith("abs(") and "_to_weights" in a for a in rels[0][4].atoms())
             if len(rels) == 1 and rels[0][1] == "<=" and poly_mentions(rels[0][4], "self.margin", sign=-1):
                 ck.fail("CMP", "S1.threshold-strict", subj, fa.loc(s), "the threshold test is `<=`: an imbalance exactly at the threshold is skipped (property: at least the threshold trades)",
